@@ -85,6 +85,7 @@ func TestVerifC01(t *testing.T) {
 		c01Scenario("pipeline-tcp-c3-L2", tOpt{Kind: "pipeline-tcp", Callers: 3, MaxCq: 2, LazyQueue: 2, IDs: []uint16{0, 0xFFFF, 0}, Srv: srvOpt{Reorder: true, Dup: 1}}, d3),
 		c01Scenario("pipeline-udp-c2-stray", tOpt{Kind: "pipeline-udp", Callers: 2, IDs: []uint16{7, 7}, Srv: adv}, d3),
 		c01Scenario("reuse-c2-seq2-cancel-late", tOpt{Kind: "reuse", Callers: 2, Seq: 2, IDs: []uint16{5, 5, 5, 5}, CtxMode: []int{2, 0}}, d3),
+		c01Scenario("reuse-c2-seq2-cancel-reorder", tOpt{Kind: "reuse", Callers: 2, Seq: 2, IDs: []uint16{5, 5, 5, 5}, Srv: srvOpt{Reorder: true}, CtxMode: []int{2, 0}}, d3),
 		c01Scenario("reuse-c1-seq3-srvclose", tOpt{Kind: "reuse", Callers: 1, Seq: 3, IDs: []uint16{0, 0xFFFF, 0}, Srv: srvOpt{CloseBudget: 1}}, d),
 	}
 	vr.RunScenarios("C01", scs)
